@@ -52,6 +52,7 @@ type NodeConfig struct {
 	NumWorkers int
 	VerifierCount int
 	EnableBP   bool
+	JournalFromStart bool // start journaling before the first message (so that ChainService.Recover is journaled)
 }
 
 // DetBPKey returns a deterministic marshalled secp256k1 libp2p private key and its peer id string.
@@ -253,6 +254,9 @@ func StartNode(nc NodeConfig) (*Node, error) {
 	}
 	n.hub.Register(comps...)
 	n.hub.Start()
+	if nc.JournalFromStart {
+		n.jr.Start()
+	}
 	// first message: makes ChainService.Receive run Recover()
 	if _, err := n.best(); err != nil {
 		return nil, err
